@@ -14,6 +14,9 @@ props = []
 for c in m['checks']:
     props.append('* **%s — %s.** %s *Limits of the claim:* %s' % (c['property_id'], titles[c['property_id']], c['level_claimed']['text'], c['level_note']))
 p1 = p1.replace('{{checks}}', g.checks_table()).replace('{{fixes}}', g.fixes_table()).replace('{{known}}', g.known_table()).replace('{{seeds}}', g.seeds_table()).replace('{{props}}', '\n'.join(props))
+import glob
+metas = [json.load(open(f)) for f in glob.glob(os.path.join(V, 'seeded', '*', 'meta.json'))]
+p1 = p1.replace('{{nseeds}}', str(len(metas))).replace('{{ndetected}}', str(sum(1 for m in metas if m.get('detected')))).replace('{{nstrengthened}}', str(sum(1 for m in metas if m.get('detected_after_strengthening'))))
 p2 = open(os.path.join(V, 'tools/design/part2.md')).read()
 head = ('\n# Part II — the design as written before the code (kept for its reasoning; superseded by Part I where they differ)\n\n'
         'Section numbers of this part are referred to as §II.n from Part I. "Status: design only" was true when it was written.\n\n')
